@@ -329,13 +329,94 @@ def run(ctx, out):
                 "-w 0 = one worker per CPU), runs confined to ONE usable CPU, runs in which one call fails (ENOENT/EACCES/EIO/ENOTDIR at the "
                 "n-th open / stat / listing / mkdir / symlink / readlink): whole-sandbox snapshot vs an "
                 "independent Python statement of cp's mapping rule and a frame check; the destination matrix (DestMatrix.v); operands "
-                "that are links (copied as links, never descended into, whatever they point at from their new place); --gitignore selections (git's own verdicts; sources holding a directory of their own name) mirrored entry by entry; non-trivial = >=3 entries; distinct by case")
+                "that are links (copied as links, never descended into, whatever they point at from their new place); --gitignore selections (git's own verdicts; sources holding a directory of their own name) mirrored entry by entry; destinations whose parent is missing, trees whose files are renamed away or whose fresh destination directory is removed by another process during the run (exit 0 still means: everything there); non-trivial = >=3 entries; distinct by case")
     run_walker_r0(ctx, out)
     run_copies(ctx, out)
     import destmatrix
     destmatrix.run(ctx, out, "C02", opts=["none", "backup"])
     run_link_operands(ctx, out)
     run_selected(ctx, out)
+    run_unreachable_and_vanishing(ctx, out)
+
+
+def run_unreachable_and_vanishing(ctx, out):
+    """exit 0 promises the whole selected tree at the destination — also when part of the destination cannot be created (a
+    missing parent directory; a destination directory removed by someone else during the run) and when entries of the
+    source are renamed away after the walk selected them: then the run must fail, never succeed with entries missing."""
+    import time
+    rng = ctx.rng
+    quick = ctx.tier == "quick"
+    sup = core.build_sup()
+    d0 = ctx.work.fresh("c02gone")
+    k = 0
+    for driver in ("parfile", "parblock"):
+        for tail in (["f", "dst/nodir/f"], ["-r", "tree", "nosuch/deeper/tree"], ["f", "tree", "nosuch/"]):
+            k += 1
+            d = os.path.join(d0, "u%d" % k)
+            os.makedirs(os.path.join(d, "tree", "sub"))
+            os.makedirs(os.path.join(d, "dst"))
+            open(os.path.join(d, "f"), "wb").write(b"F" * 3000)
+            open(os.path.join(d, "tree", "sub", "t"), "wb").write(b"T" * 50)
+            os.symlink("sub/t", os.path.join(d, "tree", "l"))
+            before = xcp.snapshot(os.fsencode(d))
+            argv = [ctx.bins["xcp"], "--driver", driver, "-w", "2"] + (["-r"] if tail[0] != "-r" and "tree" in tail else []) + tail
+            r = xcp.run_plain(argv, d)
+            after = xcp.snapshot(os.fsencode(d))
+            out.case(("missing-parent", driver, tuple(tail)), True)
+            out.count("destination_parent_missing")
+            if r.exit == 0:
+                # whatever mapping applied, every regular file and link of the operands must exist somewhere new with its content
+                new = {p: e for p, e in after.items() if p not in before}
+                shas = {e.get("sha") for e in new.values() if e["kind"] == "file"}
+                want = [before[b"f"]["sha"]] if b"f" in [os.fsencode(x) for x in tail] else []
+                if "tree" in tail:
+                    want.append(before[b"tree/sub/t"]["sha"])
+                if any(w not in shas for w in want):
+                    out.violation("exit 0 but a selected entry is nowhere at the destination (the destination's parent directory did not exist): %r"
+                                  % (argv[1:],), dict(argv=argv[1:], exit=r.exit, stderr=r.stderr[-300:], created=sorted(repr(p) for p in new)[:8]))
+            shutil.rmtree(d, ignore_errors=True)
+    for driver in ("parfile", "parblock"):
+        for what in ("rename-source-files", "remove-destination-directory"):
+            for w in ((1,) if quick else (1, 2, 4)):
+                k += 1
+                d = os.path.join(d0, "v%d" % k)
+                os.makedirs(os.path.join(d, "src", "sub", "deep"))
+                names = ["f%d.bin" % i for i in range(6)] + ["sub/g%d.bin" % i for i in range(4)] + ["sub/deep/h%d.bin" % i for i in range(3)]
+                for i, nme in enumerate(names):
+                    open(os.path.join(d, "src", nme), "wb").write(bytes([65 + i]) * (66000 + i))
+                os.symlink("f0.bin", os.path.join(d, "src", "sub", "lnk"))
+                acted = []
+
+                def env(d=d, what=what, acted=acted, names=names):
+                    t0 = time.time()
+                    while time.time() - t0 < 20 and not os.path.isdir(os.path.join(d, "dst", "sub", "deep")):
+                        time.sleep(0.005)
+                    try:
+                        if what == "rename-source-files":
+                            for v in names[1::2]:
+                                os.rename(os.path.join(d, "src", v), os.path.join(d, "src", v + ".moved"))
+                                acted.append(v)
+                        else:
+                            os.rmdir(os.path.join(d, "dst", "sub", "deep"))
+                            acted.append("dst/sub/deep")
+                    except OSError:
+                        pass
+                argv = [ctx.bins["xcp"], "-r", "-T", "--driver", driver, "-w", str(w), "--block-size", "65536", "src", "dst"]
+                rules = [("hold", 1500, 0, "copy_file_range", 1, "*")]
+                before_src = xcp.snapshot(os.fsencode(os.path.join(d, "src")))
+                r = xcp.run_supervised(sup, argv, d, d, rules=rules, tag="v", timeout_ms=60000, during=env, during_delay=0.0)
+                out.case(("changing-during-the-run", driver, w, what), nontrivial=bool(acted))
+                out.count("trees_changing_during_the_run")
+                if r.exit == 0:
+                    dsnap = xcp.snapshot(os.fsencode(os.path.join(d, "dst"))) if os.path.isdir(os.path.join(d, "dst")) else {}
+                    missing = [p for p, e in before_src.items() if p and (p not in dsnap or dsnap[p]["kind"] != e["kind"] or
+                                                                          (e["kind"] == "file" and dsnap[p].get("sha") != e.get("sha")))]
+                    if missing:
+                        out.violation("exit 0 but %d selected entries are missing or wrong at the destination (%r ...): another process %s after the walk "
+                                      "had selected them" % (len(missing), missing[:3], "renamed source files away" if what.startswith("rename") else
+                                                             "removed a destination directory the run had created"),
+                                      dict(argv=argv[1:], rules=rules, environment=what, acted_on=acted[:6], exit=r.exit, stderr=r.stderr[-300:]))
+                shutil.rmtree(d, ignore_errors=True)
 
 
 def run_selected(ctx, out):
